@@ -4,8 +4,12 @@ package main
 
 import (
 	"bytes"
+	"flag"
 	"fmt"
+	"os"
+	"os/exec"
 	"reflect"
+	"strconv"
 	"strings"
 
 	"github.com/segmentio/encoding/thrift"
@@ -347,6 +351,155 @@ func c13Messages() {
 					emit("t.msg", args, impl, orc)
 				}
 			}
+		}
+	}
+}
+
+// sets spelled with a NAMED empty struct or another zero-size value type: map[K]Void and map[K][0]T are thrift sets
+// exactly like map[K]struct{} for the encoder, the decoder and TypeOf alike
+type tVoid struct{}
+type tVoidHolder struct {
+	S map[string]tVoid   `thrift:"1"`
+	A map[int32][0]int64 `thrift:"2"`
+	N int32              `thrift:"3"`
+}
+type tPlainHolder struct {
+	S map[string]struct{} `thrift:"1"`
+	A map[int32]struct{}  `thrift:"2"`
+	N int32               `thrift:"3"`
+}
+
+// sets whose members are structs with optional fields: each member is decoded on its own (what one member sets does
+// not show in the next)
+type tSetMember struct {
+	A int32  `thrift:"1"`
+	B int64  `thrift:"2"`
+	S string `thrift:"3"`
+}
+type tSetHolder struct {
+	M map[tSetMember]struct{} `thrift:"1"`
+	N int32                   `thrift:"2"`
+}
+
+func c04StructSets() {
+	for _, p := range tprotos {
+		if !mine() {
+			skip()
+			continue
+		}
+		impl := guarded(func() string {
+			v := &tSetHolder{M: map[tSetMember]struct{}{{A: 1}: {}, {B: 2}: {}, {S: "x"}: {}, {A: 4, B: 5, S: "y"}: {}, {}: {}}, N: 9}
+			b, err := thrift.Marshal(tproto(p), v)
+			if err != nil {
+				return "err:marshal"
+			}
+			var back tSetHolder
+			if err := thrift.Unmarshal(tproto(p), b, &back); err != nil {
+				return "rt=err " + tErrClass(err)
+			}
+			if !reflect.DeepEqual(back.M, v.M) || back.N != 9 {
+				return fmt.Sprintf("rt=DIFFERENT %v", back.M)
+			}
+			return "ok"
+		})
+		emit("t.void", "structset "+p, impl, "ok")
+	}
+}
+
+func c04Void() {
+	c04StructSets()
+	for k := 0; k < 3; k++ {
+		for _, p := range tprotos {
+			if !mine() {
+				skip()
+				continue
+			}
+			args := fmt.Sprintf("%d %s", k, p)
+			impl := guarded(func() string {
+				v := &tVoidHolder{N: 7}
+				w := &tPlainHolder{N: 7}
+				if k > 0 {
+					v.S, w.S = map[string]tVoid{"a": {}}, map[string]struct{}{"a": {}}
+				}
+				if k > 1 {
+					v.A, w.A = map[int32][0]int64{5: {}}, map[int32]struct{}{5: {}}
+				}
+				b, err := thrift.Marshal(tproto(p), v)
+				wb, werr := thrift.Marshal(tproto(p), w)
+				if err != nil || werr != nil {
+					return "err:marshal"
+				}
+				if !bytes.Equal(b, wb) {
+					return "bytes differ from the struct{} spelling: " + hexs(b) + " / " + hexs(wb)
+				}
+				var back tVoidHolder
+				if err := thrift.Unmarshal(tproto(p), b, &back); err != nil {
+					return "rt=err " + tErrClass(err)
+				}
+				if back.N != 7 || len(back.S) != len(v.S) || len(back.A) != len(v.A) {
+					return fmt.Sprintf("rt=DIFFERENT %+v", back)
+				}
+				var top map[string]tVoid
+				tb, _ := thrift.Marshal(tproto(p), map[string]tVoid{"x": {}, "y": {}})
+				if err := thrift.Unmarshal(tproto(p), tb, &top); err != nil || len(top) != 2 {
+					return fmt.Sprintf("top-level set: %v %v", top, err)
+				}
+				return "ok"
+			})
+			emit("t.void", args, impl, "ok")
+		}
+	}
+}
+
+// deeply nested structs the reader does not declare (an unknown field holding a struct holding a struct ...): the skip
+// path recurses once per level. Run in a child process: a stack overflow is a fatal error no recover can intercept.
+// The package has no depth limit (recorded finding F47): moderate depths must work, the deepest one is the finding.
+func init() {
+	register("tdeepchild", func() {
+		n, _ := strconv.Atoi(flag.Arg(1))
+		p := flag.Arg(2)
+		var b []byte
+		if p == "c" {
+			b = append([]byte{0x2c}, bytes.Repeat([]byte{0x1c}, n)...) // field 2: struct; then field 1: struct, n times
+			b = append(b, bytes.Repeat([]byte{0x00}, n+2)...)
+		} else {
+			b = []byte{12, 0, 2}
+			b = append(b, bytes.Repeat([]byte{12, 0, 1}, n)...)
+			b = append(b, bytes.Repeat([]byte{0, 0, 0}, n+2)...) // the package's three-byte stop field
+		}
+		var t struct {
+			A int32 `thrift:"1"`
+		}
+		err := thrift.Unmarshal(tproto(p), b, &t)
+		fmt.Println("result:" + tErrClass(err))
+	})
+}
+
+func c08DeepUnknown() {
+	for _, p := range []string{"c", "bs"} {
+		for _, n := range []int{1000, 100000, 5000000} {
+			if !mine() {
+				skip()
+				continue
+			}
+			fn := "t.deep"
+			if n > 1000000 {
+				fn = "t.deep.deepnest"
+			}
+			args := fmt.Sprintf("%d %s", n, p)
+			trace(fn, args)
+			cmd := exec.Command(os.Args[0], "tdeepchild", strconv.Itoa(n), p)
+			var se bytes.Buffer
+			cmd.Stderr = &se
+			o, err := cmd.Output()
+			impl := strings.TrimSpace(string(o))
+			if err != nil {
+				impl = "fatal " + err.Error()
+				if strings.Contains(se.String(), "stack overflow") {
+					impl = "fatal stack overflow"
+				}
+			}
+			emit(fn, args, impl, "result:nil")
 		}
 	}
 }
